@@ -68,6 +68,8 @@ class Snap:
         output = tuple(output)
         if output not in self._cache:
             try:
+                if len(self.ops) > 40:
+                    raise refv.TooBig("too many tensors")
                 self._cache[output] = refv.value_and_scale(
                     self.ops, self.exp, output, MAX_REF)
             except (refv.TooBig, ValueError, MemoryError):
